@@ -322,6 +322,9 @@ def r07_4_origins(chk):
     new_ref_call = None
     for f, ic, ctor in sorted(ams, key=lambda t: t[0].name):
         su = chk.summary(f)
+        if not ctor_calls(su, ic):
+            # the item is built in a helper of the logical file: look through it
+            su = chk.terms.inline(f, 2, stop=lambda g: g.cls is not f.cls or g.name == "__init__" or g.kind == "property")
         ctor_terms = [c for c in ctor_calls(su, ic) if bound_arg(chk.terms, su, c, "origin_reference") is not None]
         o = bound_arg(chk.terms, su, ctor_terms[0], "origin_reference") if ctor_terms else None
         if f.name == "add_origin":
